@@ -111,9 +111,10 @@ def rule_map(chk: Check, model, cv: CompiledView, rid: str):
         if rd:
             buf = rd[0].args[0]
             t = T.mk_index(S("timings_node.windows"), buf[2]) if buf[0] == "index" else None
-        ok = t is not None and e.args[:3] == (T.mk_attr(t, "seq"), T.mk_attr(t, "ts_sent"), T.mk_attr(t, "ts_recv")) and len(e.args) == 4 and e.args[3] == rd[0].term \
-            and dict(e.kwargs).get("is_data") == T.TRUE
-        chk.add(rid, "window assembled from the mapped reads", ok, f"InputState.from_outputs gets {[T.show(a)[:60] for a in e.args]}", chk.loc(f_ui, e.node))
+        b = model.bind_call("base.InputState.from_outputs", e.args, e.kwargs)  # (arguments by parameter, however they were passed)
+        ok = t is not None and (b.get("seq"), b.get("ts_sent"), b.get("ts_recv")) == (T.mk_attr(t, "seq"), T.mk_attr(t, "ts_sent"), T.mk_attr(t, "ts_recv")) \
+            and b.get("outputs") == rd[0].term and b.get("is_data") == T.TRUE
+        chk.add(rid, "window assembled from the mapped reads", ok, f"InputState.from_outputs gets {[(k, T.show(a)[:60]) for k, a in b.items()]}", chk.loc(f_ui, e.node))
     else:
         chk.unknown(rid, "window assembled from the mapped reads", f"expected one InputState.from_outputs call, found {len(fo)}", chk.loc(f_ui))
 
